@@ -29,6 +29,7 @@
 
 enum { OK = 0, MORE = 1, BAD = 2 };
 #define MAXIN 300
+static unsigned vf_fill(uint8_t *out, const char *tmpl, unsigned tlen, const char *name) { for (unsigned i = 0; i < tlen; ++i) out[i] = tmpl[i] == '\x01' ? vf_nondet_u8(name) : (uint8_t)tmpl[i]; return tlen; }
 #define MAXTLV 3
 
 // ---- text address forms (shared by the reference decoder and, in the interpreted build, by the getaddrinfo() model)
@@ -308,10 +309,11 @@ static void refV1(const uint8_t *x, const unsigned n, Result &r)
         ++i;
     }
     if (cls[0] == acInvalid || cls[1] == acInvalid) return;
-    // KNOWN-FINDING candidate (observed natively, not asserted here): IPv4 text that only inet_aton() accepts ("1.2.3" =
-    // 1.2.0.3, "010.1.1.1" = 8.1.1.1, "16909060") is accepted by One::ExtractIp(); non-numeric text ("a.b") is handed to
-    // the resolver because Ip::Address::GetHostByName() does not set AI_NUMERICHOST. The specification wants exactly
-    // four decimal parts. Such inputs are marked lenient and excluded by the callers.
+    // KNOWN FINDING C38-lenient-v1 (known_findings.json): IPv4 text that only inet_aton() accepts ("1.2.3" = 1.2.0.3,
+    // "010.1.1.1" = 8.1.1.1, "16909060") is accepted by One::ExtractIp() (getaddrinfo(AI_NUMERICHOST) semantics); the
+    // specification wants exactly four decimal parts. Such inputs are marked lenient: excluded from the ordinary entries
+    // and examined by c38_known_lenient_v1. (Non-numeric text such as "a.b" used to go to the DNS resolver; repaired in
+    // /repo by the 'fix: PROXY/1.0 address fields could trigger a blocking DNS lookup' commit.)
     if (cls[0] == acLenient || cls[1] == acLenient) r.lenient = true;
     const bool a6 = cls[0] == acV6, b6 = cls[1] == acV6;
     if (!r.lenient && (a6 != v6 || b6 != v6)) return;        // declared and actual address family differ
@@ -319,10 +321,11 @@ static void refV1(const uint8_t *x, const unsigned n, Result &r)
     if (!refPort(s, m, i, sp, z1)) return;
     if (i >= m || s[i++] != ' ') return;
     if (!refPort(s, m, i, dp, z2)) return;
-    // KNOWN-FINDING candidate: "PROXY TCP4 1.2.3.4 5.6.7.8 1 2 junk" CRLF (anything but CR after the destination port) and
-    // ports with leading zeros ("080") are accepted: One::ExtractPort() stops after the digits and One::Parse() never checks
-    // that the line has been used up. The specification allows neither. Marked lenient and excluded by the callers.
-    if (i != m || z1 || z2) r.lenient = true;
+    // (Bytes after the destination port, "... 1 2 junk" CRLF, used to be accepted; repaired in /repo by the 'fix: PROXY/1.0
+    // header accepted arbitrary bytes after the destination port' commit.)
+    if (i != m) return;
+    // KNOWN FINDING C38-lenient-v1: ports with leading zeros ("080") are accepted (Tokenizer::int64); marked lenient.
+    if (z1 || z2) r.lenient = true;
     r.st = OK; r.hasAddr = true; r.addrValues = true; r.isV6 = v6;
     memcpy(r.src, addr[0], 16); memcpy(r.dst, addr[1], 16);
     r.sport = sp; r.dport = dp;
@@ -340,12 +343,19 @@ static Result reference(const uint8_t *x, const unsigned n)
 
 // =====================================================================================================================
 // the check: complete input against the reference, and every prefix against the complete input
+static bool onlyLenient = false; // set by c38_known_lenient_v1 only
 static void check(const uint8_t *in, const unsigned n)
 {
     vf_quiet();
     Ip::EnableIpv6 = IPV6_ON; // as after Ip::ProbeTransport() on a dual-stack host
     const Result want = reference(in, n);
-    vf_assume(!want.lenient); // KNOWN-FINDING candidates described in refV1()
+    if (onlyLenient) { // known-finding entry: the specification calls these headers malformed
+        vf_assume(want.lenient);
+        const Got lenientWhole = parse(in, n);
+        vf_assert(lenientWhole.st == BAD, "a malformed header is rejected");
+        return;
+    }
+    vf_assume(!want.lenient); // known finding C38-lenient-v1, described in refV1()
     const Got whole = parse(in, n);
     vf_observe("ref", want.st); vf_observe("st", whole.st); vf_observe("size", whole.size);
     if (want.st == OK) vf_assert(whole.st == OK, "a well-formed header is accepted");
@@ -515,4 +525,15 @@ extern "C" void c38_v2_mutated(void)
 #endif
     for (unsigned k = 0; k < 4; ++k) if (groups[g][k] >= 0) in[groups[g][k]] = vf_nondet_u8("b");
     check(in, sizeof(base));
+}
+
+// KNOWN FINDING C38-lenient-v1 (known_findings.json): leading zeros in ports, inet_aton-only IPv4 forms
+extern "C" void c38_known_lenient_v1(void)
+{
+    onlyLenient = true;
+    static const char *const lits[2] = {"PROXY TCP4 1.2.3.4 5.6.7.8 \x01\x01 2\r\n", "PROXY TCP4 1.2.\x01 5.6.7.8 1 2\r\n"};
+    const unsigned which = vf_choose(2, "skeleton");
+    uint8_t in[MAXIN];
+    const unsigned n = vf_fill(in, lits[which], strlen(lits[which]), "b");
+    check(in, n);
 }
